@@ -30,5 +30,5 @@ def install(seed=b'verif'):
 def reset_seeddb():
     import pyctr.crypto.seeddb as s
     s._seeds.clear()
-    if hasattr(s, '_loaded_from_default_paths'):
-        s._loaded_from_default_paths = False
+    # never look for a seeddb.bin on disk
+    s._loaded_from_default_paths = True
